@@ -154,7 +154,9 @@ def gen(tier, rng):
         for ip in ("10.0.0.1", "192.168.1.254"):
             ops.append("netmask " + hx(("%s/%d" % (ip, p)).encode()))
     for s in ["10.0.0.1", "10.0.0.1/", "10.0.0.1/+8", "10.0.0.1/-1", "10.0.0.1/08", "10.0.0.1/ 8", "10.0.0/8", "10.0.0.256/8", "1.2.3.4/8/9", "/8", "", "a.b.c.d/8",
-              "10.0.0.1/0x10", "010.0.0.1/8", "10.0.0.1/32", "10.0.0.1/33", "::1/64", "1.2.3.4/24 ", "1.2.3.4/２４"]:
+              "10.0.0.1/0x10", "010.0.0.1/8", "10.0.0.1/32", "10.0.0.1/33", "::1/64", "1.2.3.4/24 ", "1.2.3.4/２４",
+              # characters of more than one byte BEFORE the slash (byte offset and character index of the slash differ)
+              "10.0.1.１/24", "10.0.1.é/8", "ää/8", "ä/8", "１/8", "€€€/1", "ä", "é10.0.0.1/8", "1０.0.0.1/16", "ääää/ä", "\U0001f600/8"]:
         ops.append("netmask " + hx(s.encode()))
     rng.shuffle(ops)
     for i in range(0, len(ops), 50):
